@@ -348,9 +348,33 @@ func check(sc Scenario, ex execution) ([]violation, facts) {
 		}
 
 		registered := sv.regEnd >= 0 && (sv.regErr == nil || sv.regPanic)
-		// -- completeness without a Put record (replayer gone after a panic): a Publish that
-		// started after s registered and returned nil before s's obligations ended
+		// A registration witness that does not depend on the replayer being called: the first
+		// time Joe's loop went idle after this Subscribe had handed its subscription over. At
+		// that point the loop iteration that registered the subscriber is over (it may be later
+		// than the actual registration, never earlier).
+		witness := -1
+		if sv.regErr == nil {
+			handed := -1
+			for i, r := range log {
+				if r.K != "hook" {
+					continue
+				}
+				if handed < 0 && r.Actor == fmt.Sprintf("sub%d", s) && r.Point == "sub:registered" {
+					handed = i
+				} else if handed >= 0 && r.Actor == "loop" && r.Point == "loop:idle" {
+					witness = i
+					break
+				}
+			}
+		}
+		regPoint := witness
 		if registered {
+			regPoint = sv.regEnd
+		}
+		// -- completeness that needs no Put record (no replayer, replayer gone after a panic, or
+		// a Subscribe for which the replayer was never consulted): a Publish that STARTED after s
+		// was registered and RETURNED nil before s's obligations ended must have reached s
+		if regPoint >= 0 {
 			endAt0 := firstShutCall
 			if sv.ownErrAt >= 0 && sv.ownErrAt < endAt0 {
 				endAt0 = sv.ownErrAt
@@ -363,10 +387,62 @@ func check(sc Scenario, ex execution) ([]violation, facts) {
 				if r.K == "pubcall" {
 					calls[r.Ser] = i
 				}
-				if r.K == "pubret" && r.Err == nil && i < endAt0 && calls[r.Ser] > sv.regEnd {
-					if _, wasPut := putIdx[r.Ser]; !wasPut && intersects(ex.msgTopics[r.Ser], topics) && !seen[r.Ser] {
-						bad("C17", "s%d (registered at record %d) never received %s, published (records %d..%d) after the replayer had panicked", s, sv.regEnd, r.Ser, calls[r.Ser], i)
+				if r.K == "pubret" && r.Err == nil && i < endAt0 && calls[r.Ser] > regPoint {
+					if intersects(ex.msgTopics[r.Ser], topics) && !seen[r.Ser] {
+						prop := "C03"
+						if repPanicAt >= 0 && repPanicAt < i {
+							prop = "C17"
+						}
+						bad(prop, "s%d (registered by record %d) never received %s, whose Publish started (record %d) after that and returned nil (record %d) before s%d's cancellation/failure/shutdown", s, regPoint, r.Ser, calls[r.Ser], i, s)
 					}
+				}
+			}
+		}
+		// -- C04 without a Replay record: the replayer was never asked although one is configured
+		// and alive. Whatever shortcut was taken, the subscriber must still see exactly the
+		// matching events after the presented ID, once each, in put order.
+		if (sc.Replayer == "finite" || sc.Replayer == "valid") && sv.regBegin < 0 && witness >= 0 && (repPanicAt < 0 || repPanicAt > witness) && sc.TTLms == 0 {
+			endAt1 := firstShutCall
+			if sv.ownErrAt >= 0 && sv.ownErrAt < endAt1 {
+				endAt1 = sv.ownErrAt
+			}
+			if sv.cancelAt >= 0 && sv.cancelAt < endAt1 {
+				endAt1 = sv.cancelAt
+			}
+			presented, presentedSet := log[sv.call].ID, log[sv.call].IDSet
+			q := -1 // put position of the presented ID
+			var okPuts []putInfo
+			for _, p := range puts {
+				if p.ok {
+					okPuts = append(okPuts, p)
+					if presentedSet && p.idSet && p.id == presented && p.pos < sv.call {
+						q = p.pos
+					}
+				}
+			}
+			// is the presented ID certainly still buffered when s registers (finite: among the last Cap puts made before the witness)?
+			buffered := q >= 0
+			if buffered && sc.Replayer == "finite" {
+				later := 0
+				for _, p := range okPuts {
+					if p.pos > q && p.pos < witness {
+						later++
+					}
+				}
+				buffered = later < sc.Cap
+			}
+			for _, p := range okPuts {
+				if !intersects(ex.msgTopics[p.ser], topics) || p.pos >= endAt1 {
+					continue
+				}
+				required := p.pos > witness || (buffered && p.pos > q)
+				if required && !seen[p.ser] {
+					bad("C04", "s%d presented ID %q (put at record %d) and Joe never consulted the replayer for it; it never received %s (put at record %d), a later matching event - a gap at the replay/live boundary", s, presented, q, p.ser, p.pos)
+				}
+			}
+			for _, r := range sv.sends {
+				if pi, ok := putIdx[r.Ser]; ok && q >= 0 && puts[pi].pos <= q {
+					bad("C04", "s%d presented ID %q and received %s, which is not later than it", s, presented, r.Ser)
 				}
 			}
 		}
